@@ -6,6 +6,9 @@ import subprocess
 import sys
 
 
+_calls = [0]
+
+
 class CliResult:
 	def __init__(self, exit_code, stdout, stderr, exception=None):
 		self.exit_code = exit_code
@@ -41,7 +44,11 @@ def run_cli(args, cwd=None, env=None):
 		stderr = ''
 	out = CliResult(res.exit_code, res.stdout, stderr, exc)
 	del res
-	gc.collect()
+	# the commands never close the files they open: collect now and then so leaked handles do not pile up
+	# (a full collection costs ~50 ms in these large worker processes, so not on every call)
+	_calls[0] += 1
+	if _calls[0] % 25 == 0:
+		gc.collect()
 	return out
 
 
